@@ -104,7 +104,13 @@ def runQuery (args : List Sexp) : Option String := do
     | none => vars.map (·.1)
   let P : Machine.Params PVal :=
     { rank := fun v => (decl.idxOf v),
-      toKey := fun x => match x with | .obj i => i | _ => 0,
+      -- `HashedValue.id_`: objects by identity; equal small ints / None / booleans are the same Python object
+      toKey := fun x => match x with
+        | .obj i => i
+        | .int n => 1000 + 2 * n.natAbs + (if n < 0 then 1 else 0)
+        | .bool b => 900 + b.toNat
+        | .none => 899
+        | other => 100000 + (hash other.render).toNat % 100000,
       ofKey := fun i => .obj i }
   let on1 := Machine.rowsM W D P true q []
   let on2 := Machine.rowsM W D P true q on1.2
